@@ -1541,7 +1541,11 @@ class Transaction(object):
         """
 
         if witness_type is None:
+            # The digest for an input is the one of that input's kind (a legacy input in a segwit transaction signs the
+            # old preimage)
             witness_type = self.witness_type
+            if sign_id is not None and sign_id < len(self.inputs) and self.inputs[sign_id].witness_type:
+                witness_type = self.inputs[sign_id].witness_type
         if witness_type == 'legacy' or sign_id is None:
             return self.raw(sign_id, hash_type, 'legacy')
         elif witness_type in ['segwit', 'p2sh-segwit']:
